@@ -276,6 +276,13 @@ def run(run):
     # ---------------------------------------------------------------- R4
     _policy(run, F, BASE)
     _pin_states(run, PIN)
+    # "the PIN file changes only after the device has acknowledged a new PIN": what new_pin of each dongle class reports (rule R7 of C18, prefix D.)
+    from . import c18
+    run.rid_prefix = "D."
+    try:
+        c18.new_pin_verdicts(run, "R7")
+    finally:
+        run.rid_prefix = ""
 
     # ---------------------------------------------------------------- R5
     run.rule("R5", "On the needs_change() branch every exit of _handle_bootloader is "
